@@ -24,7 +24,10 @@ type histOp struct {
 	API    string `json:"api"`
 }
 
-var histFrags = []string{"a", "{% include 'inc' %}", "{% for v in [1, 2] %}", "{{ v }}", "{% endfor %}", "b"}
+// every tokeniser state sends tokens after the point where a failing parser has returned: strings with interpolation,
+// comments, verbatim sections, brackets
+var histFrags = []string{"a", "{% include 'inc' %}", "{% for v in [1, 2] %}", "{{ v }}", "{% endfor %}", "b",
+	`{{ "s#{x ~ 'i'}t" }}`, "{# c #}", "{% verbatim %}{{ q }}{% endverbatim %}", "{{ {k: [1, (2)]}.k[1] }}c"}
 
 func histSources(kind string, inline bool) (entry string, files map[string]string) {
 	inc := "<{{ x }}>"
